@@ -74,9 +74,17 @@ pub fn install_panic_hook() {
             } else {
                 "<non-string panic payload>".to_string()
             };
+            // generator sources are compiled from a copy in OUT_DIR: report them by file name
             let loc = info
                 .location()
-                .map(|l| format!("{}:{}", l.file(), l.line()))
+                .map(|l| {
+                    let f = l.file();
+                    let f = match f.rfind("/out/generate_") {
+                        Some(i) => format!("unic-langid-impl/src/bin/{}", &f[i + 5..]),
+                        None => f.to_string(),
+                    };
+                    format!("{}:{}", f, l.line())
+                })
                 .unwrap_or_else(|| "<unknown>".into());
             world::PANIC_INFO.with(|p| *p.borrow_mut() = Some(format!("{} at {}", msg, loc)));
         } else {
